@@ -2,6 +2,7 @@ import OASProofs.Lemmas.AD
 import Mathlib.Tactic.FieldSimp
 import Mathlib.Tactic.Ring
 import Mathlib.Tactic.Linarith
+import Mathlib.Topology.Order.LeftRight
 
 /-!
   **C17 / C16 / C01 — the atmosphere interpolation (`OASModel/Akima.lean`, `common/atmos_comp.py`).**
@@ -16,10 +17,11 @@ import Mathlib.Tactic.Linarith
     `AtmosComp.compute_partials` (scipy's derivative spline) with,
   * where four consecutive secants vanish (the isothermal layer of the table) the knot slope is zero and a segment between two such
     knots is constant (`knotSlope_flat`, `hermite_flat`): temperature and speed of sound do not vary there,
+  * the interpolant is continuous at every altitude strictly inside the table, knots included (`c17_akima_continuousAt`),
   * `v = speed_of_sound · Mach_number` (`c17_atmos_velocity`).
 -/
 namespace OAS.C17Akima
-open OAS OAS.Akima OAS.AD
+open OAS OAS.Akima OAS.AD Filter Topology
 
 /-- derivative of the Hermite segment with respect to the query point -/
 noncomputable def hermiteDeriv (x0 x1 y0 y1 t0 t1 q : ℝ) : ℝ :=
@@ -67,22 +69,30 @@ theorem hermite_exact {t : ℝ} {X0 X1 Y0 Y1 T0 T1 Q : Dual ℝ} {x0 x1 y0 y1 t0
 
 /-! ### the segment search -/
 
+/-- the first `n` abscissae are strictly increasing (entries past the table are never read) -/
+def Increasing (n : ℕ) (x : ℕ → ℝ) : Prop := ∀ a b, a < b → b < n → x a < x b
+
 theorem locate_le (x : ℕ → ℝ) (q : ℝ) (k : ℕ) : locate x q k ≤ k := by
   induction k with
   | zero => simp [locate]
   | succ k ih => simp only [locate]; split <;> omega
 
 /-- if `x i ≤ q < x (i+1)` for a strictly increasing table then the search returns `i` -/
-theorem locate_eq (x : ℕ → ℝ) (hx : StrictMono x) (q : ℝ) (i k : ℕ) (hik : i ≤ k) (h0 : x i ≤ q) (h1 : q < x (i + 1)) :
-    locate x q k = i := by
+theorem locate_eq (n : ℕ) (x : ℕ → ℝ) (hx : Increasing n x) (q : ℝ) (i k : ℕ) (hik : i ≤ k) (hk : k + 1 < n) (h0 : x i ≤ q)
+    (h1 : q < x (i + 1)) : locate x q k = i := by
   induction k with
   | zero => have : i = 0 := by omega
             simp [locate, this]
   | succ k ih =>
     simp only [locate]
     rcases Nat.lt_or_ge i (k + 1) with hlt | hge
-    · have : q < x (k + 1) := lt_of_lt_of_le h1 (hx.monotone (by omega))
-      rw [if_pos this]; exact ih (by omega)
+    · have hle : x (i + 1) ≤ x (k + 1) := by
+        rcases Nat.lt_or_ge (i + 1) (k + 1) with h | h
+        · exact (hx _ _ h (by omega)).le
+        · have : i + 1 = k + 1 := by omega
+          rw [this]
+      have : q < x (k + 1) := lt_of_lt_of_le h1 hle
+      rw [if_pos this]; exact ih (by omega) (by omega)
     · have hi : i = k + 1 := by omega
       subst hi
       rw [if_neg (not_lt.mpr h0)]
@@ -94,26 +104,27 @@ theorem locate_last (x : ℕ → ℝ) (q : ℝ) (k : ℕ) (h : x k ≤ q) : loca
   | succ k => simp only [locate]; rw [if_neg (not_lt.mpr h)]
 
 /-- on `[x i, x (i+1))` the interpolant is the Hermite segment `i` -/
-theorem eval_segment (n : ℕ) (x y : ℕ → ℝ) (hx : StrictMono x) (q : ℝ) (i : ℕ) (hi : i + 2 ≤ n) (h0 : x i ≤ q) (h1 : q < x (i + 1)) :
+theorem eval_segment (n : ℕ) (x y : ℕ → ℝ) (hx : Increasing n x) (q : ℝ) (i : ℕ) (hi : i + 2 ≤ n) (h0 : x i ≤ q) (h1 : q < x (i + 1)) :
     eval n x y q =
       hermite (x i) (x (i + 1)) (y i) (y (i + 1)) (knotSlope n x y (maxTo (n - 1) (f12 n x y)) i)
         (knotSlope n x y (maxTo (n - 1) (f12 n x y)) (i + 1)) q := by
   simp only [eval]
-  rw [locate_eq x hx q i (n - 2) (by omega) h0 h1]
+  rw [locate_eq n x hx q i (n - 2) (by omega) (by omega) h0 h1]
 
 /-- **C17** the interpolant reproduces every row of the table -/
-theorem c17_akima_interpolates (n : ℕ) (x y : ℕ → ℝ) (hx : StrictMono x) (i : ℕ) (hn : 2 ≤ n) (hi : i < n) :
+theorem c17_akima_interpolates (n : ℕ) (x y : ℕ → ℝ) (hx : Increasing n x) (i : ℕ) (hn : 2 ≤ n) (hi : i < n) :
     eval n x y (x i) = y i := by
   rcases Nat.lt_or_ge (i + 1) n with h | h
-  · rw [eval_segment n x y hx (x i) i (by omega) le_rfl (hx (by omega))]
+  · rw [eval_segment n x y hx (x i) i (by omega) le_rfl (hx _ _ (Nat.lt_succ_self i) h)]
     exact hermite_left ..
   · have hi' : i = (n - 2) + 1 := by omega
     simp only [eval]
-    rw [locate_last x (x i) (n - 2) (hx.monotone (by omega)), hi']
-    exact hermite_right _ _ _ _ _ _ (hx (by omega)).ne'
+    have hlt : x (n - 2) < x (n - 2 + 1) := hx _ _ (Nat.lt_succ_self _) (by omega)
+    rw [hi', locate_last x _ (n - 2) hlt.le]
+    exact hermite_right _ _ _ _ _ _ hlt.ne'
 
 /-- **C01** inside a segment the derivative of the interpolant is the derivative of its Hermite segment -/
-theorem c01_akima_hasDerivAt (n : ℕ) (x y : ℕ → ℝ) (hx : StrictMono x) (q : ℝ) (i : ℕ) (hi : i + 2 ≤ n) (h0 : x i < q) (h1 : q < x (i + 1)) :
+theorem c01_akima_hasDerivAt (n : ℕ) (x y : ℕ → ℝ) (hx : Increasing n x) (q : ℝ) (i : ℕ) (hi : i + 2 ≤ n) (h0 : x i < q) (h1 : q < x (i + 1)) :
     HasDerivAt (eval n x y)
       (hermiteDeriv (x i) (x (i + 1)) (y i) (y (i + 1)) (knotSlope n x y (maxTo (n - 1) (f12 n x y)) i)
         (knotSlope n x y (maxTo (n - 1) (f12 n x y)) (i + 1)) q) q := by
@@ -141,7 +152,7 @@ theorem mExt_interior (n : ℕ) (x y : ℕ → ℝ) (k : ℕ) (h2 : 2 ≤ k) (hk
   have b : k ≠ 1 := by omega
   simp [mExt, a, b, hk]
 
-theorem c17_isothermal (n : ℕ) (x y : ℕ → ℝ) (hx : StrictMono x) (i : ℕ) (q : ℝ) (hi2 : 2 ≤ i) (hin : i + 4 ≤ n)
+theorem c17_isothermal (n : ℕ) (x y : ℕ → ℝ) (hx : Increasing n x) (i : ℕ) (q : ℝ) (hi2 : 2 ≤ i) (hin : i + 4 ≤ n)
     (hy : ∀ j, i - 2 ≤ j → j ≤ i + 3 → y j = y i) (h0 : x i ≤ q) (h1 : q < x (i + 1)) :
     eval n x y q = y i := by
   have sec : ∀ j, i - 2 ≤ j → j ≤ i + 2 → secant x y j = 0 := by
@@ -165,8 +176,57 @@ theorem c17_atmos_velocity (n : ℕ) (alt tT tP tRho tA tMu : ℕ → ℝ) (h M 
     (atmos n alt tT tP tRho tA tMu h M).2.2.2.1 = eval n alt tA h := by
   simp [atmos]
 
+/-! ### continuity in altitude -/
+
+/-- every point of `[x 0, x (n−1))` lies in a segment -/
+theorem exists_segment (x : ℕ → ℝ) (q : ℝ) (m : ℕ) (h0 : x 0 ≤ q) (h1 : q < x (m + 1)) :
+    ∃ i, i ≤ m ∧ x i ≤ q ∧ q < x (i + 1) := by
+  induction m with
+  | zero => exact ⟨0, le_rfl, h0, h1⟩
+  | succ m ih =>
+    rcases lt_or_ge q (x (m + 1)) with h | h
+    · obtain ⟨i, hi, a, b⟩ := ih h
+      exact ⟨i, by omega, a, b⟩
+    · exact ⟨m + 1, le_rfl, h, h1⟩
+
+theorem hermite_continuous (x0 x1 y0 y1 t0 t1 : ℝ) : Continuous (hermite x0 x1 y0 y1 t0 t1) :=
+  continuous_iff_continuousAt.mpr fun q => (hermite_hasDerivAt x0 x1 y0 y1 t0 t1 q).continuousAt
+
+/-- **C17** the interpolated atmosphere is continuous in altitude: at every point strictly inside the table (knots included) -/
+theorem c17_akima_continuousAt (n : ℕ) (x y : ℕ → ℝ) (hx : Increasing n x) (q : ℝ) (hn : 2 ≤ n) (h0 : x 0 < q) (h1 : q < x (n - 1)) :
+    ContinuousAt (eval n x y) q := by
+  obtain ⟨i, hi, a, b⟩ := exists_segment x q (n - 2) h0.le (by rwa [show n - 2 + 1 = n - 1 by omega])
+  rcases a.lt_or_eq with a | a
+  · exact (c01_akima_hasDerivAt n x y hx q i (by omega) a b).continuousAt
+  · -- a knot: the segment on the left ends at the table value, the segment on the right starts there
+    subst a
+    have hi0 : i ≠ 0 := by rintro rfl; exact lt_irrefl _ h0
+    obtain ⟨j, rfl⟩ : ∃ j, i = j + 1 := ⟨i - 1, by omega⟩
+    have hv : eval n x y (x (j + 1)) = y (j + 1) := c17_akima_interpolates n x y hx (j + 1) hn (by omega)
+    rw [continuousAt_iff_continuous_left_right]
+    constructor
+    · -- from the left: segment j on (x j, x (j+1))
+      have hc := (hermite_continuous (x j) (x (j + 1)) (y j) (y (j + 1)) (knotSlope n x y (maxTo (n - 1) (f12 n x y)) j)
+        (knotSlope n x y (maxTo (n - 1) (f12 n x y)) (j + 1))).continuousAt (x := x (j + 1)) |>.continuousWithinAt (s := Set.Iic (x (j + 1)))
+      refine hc.congr_of_eventuallyEq ?_ ?_
+      · have : Set.Ioc (x j) (x (j + 1)) ∈ 𝓝[≤] (x (j + 1)) := Ioc_mem_nhdsLE (hx _ _ (Nat.lt_succ_self j) (by omega))
+        filter_upwards [this] with z hz
+        rcases hz.2.lt_or_eq with hlt | heq
+        · exact eval_segment n x y hx z j (by omega) hz.1.le hlt
+        · rw [heq, hv, hermite_right _ _ _ _ _ _ (hx _ _ (Nat.lt_succ_self j) (by omega)).ne']
+      · rw [hv, hermite_right _ _ _ _ _ _ (hx _ _ (Nat.lt_succ_self j) (by omega)).ne']
+    · -- from the right: segment j+1 on [x (j+1), x (j+2))
+      have hc := (hermite_continuous (x (j + 1)) (x (j + 2)) (y (j + 1)) (y (j + 2)) (knotSlope n x y (maxTo (n - 1) (f12 n x y)) (j + 1))
+        (knotSlope n x y (maxTo (n - 1) (f12 n x y)) (j + 2))).continuousAt (x := x (j + 1)) |>.continuousWithinAt (s := Set.Ici (x (j + 1)))
+      refine hc.congr_of_eventuallyEq ?_ ?_
+      · have : Set.Ico (x (j + 1)) (x (j + 2)) ∈ 𝓝[≥] (x (j + 1)) := Ico_mem_nhdsGE (hx _ _ (Nat.lt_succ_self (j + 1)) (by omega))
+        filter_upwards [this] with z hz
+        exact eval_segment n x y hx z (j + 1) (by omega) hz.1 hz.2
+      · exact eval_segment n x y hx _ (j + 1) (by omega) le_rfl b
+
+
 /-- non-vacuity: a strictly increasing table exists and the theorems apply to it -/
 example : eval 4 (fun i => (i : ℝ)) (fun i => (i : ℝ) * 2) ((1 : ℕ) : ℝ) = ((1 : ℕ) : ℝ) * 2 :=
-  c17_akima_interpolates 4 _ _ (fun a b h => by exact_mod_cast h) 1 (by norm_num) (by norm_num)
+  c17_akima_interpolates 4 _ _ (fun a b h _ => by exact_mod_cast h) 1 (by norm_num) (by norm_num)
 
 end OAS.C17Akima
